@@ -325,6 +325,17 @@ def check_ident(idn):
         return [Disc("ident.reencode-raises", f"{d!r}: {e!r}")]
     if again != d:
         return [Disc("ident.roundtrip", f"{d!r} -> {again!r}")]
+    # the identity object is a structure: a positional sequence in member order encodes like the dict
+    order = ["vendor", "product_type", "product_code", "revision", "status", "serial", "product_name"]
+    seq = [d[k] for k in order]
+    if idn["serial"] % 2:
+        seq[3] = [d["revision"]["major"], d["revision"]["minor"]]
+    try:
+        as_seq = bytes(ModuleIdentityObject.encode(tuple(seq) if idn["serial"] % 3 == 0 else seq))
+    except PycommError as e:
+        return [Disc("ident.dict-vs-sequence.raises", f"positional {seq!r}: {e!r}"[:500])]
+    if as_seq != bytes(ModuleIdentityObject.encode(d)):
+        return [Disc("ident.dict-vs-sequence", f"{d!r}: sequence gives {as_seq.hex()}")]
     return []
 
 
